@@ -128,6 +128,8 @@ type lease struct {
 	sender types.StreamSender
 	recv   *receiver
 	lst    *listener
+	ctx    context.Context
+	reused bool            // its context was taken by a later attempt (a retry)
 	ending chan<- struct{} // non-nil: the destroying goroutine is held at the request resource
 	ended  bool            // destroy begun (dbegin) - the stream takes no further operation
 }
@@ -145,6 +147,7 @@ type world struct {
 	g0conn int64
 	g0req  int64
 	gate   *xc09.GatedResource
+	retry  bool // requests re-use the downstream context (buffers, client stream object) of an ended attempt
 	mu     sync.Mutex
 }
 
@@ -165,6 +168,18 @@ func newWorld(b *binding, mc, mr int) *world {
 	w.g0conn = w.host.HostStats().UpstreamConnectionActive.Count()
 	w.g0req = w.host.HostStats().UpstreamRequestActive.Count()
 	return w
+}
+
+// answered: the attempt ended with its response delivered (the context of such an attempt is what a
+// later attempt re-uses here; after a reset the goroutines of the old connection may still hold the
+// shared client stream object for a moment, which is the proxy's business, not the pool's)
+func (l *lease) answered() bool {
+	select {
+	case <-l.recv.done:
+		return true
+	default:
+		return false
+	}
 }
 
 func (w *world) obs(e vh.Ev) {
@@ -220,6 +235,16 @@ func (w *world) doNew(up bool) (res string, c, cvar int, fresh bool) {
 	defer w.host.SetDown(false)
 	before := len(w.reg.Conns())
 	ctx := newCtx()
+	if w.retry {
+		w.mu.Lock()
+		for i := len(w.all) - 1; i >= 0; i-- {
+			if l := w.all[i]; !l.reused && l.lst.isDestroyed() && l.answered() {
+				ctx, l.reused = l.ctx, true
+				break
+			}
+		}
+		w.mu.Unlock()
+	}
 	rc := &receiver{done: make(chan struct{})}
 	_, sender, reason := w.pool.NewStream(ctx, rc)
 	if reason != "" || sender == nil {
@@ -242,7 +267,7 @@ func (w *world) doNew(up bool) (res string, c, cvar int, fresh bool) {
 	}
 	lst := &listener{destroyed: make(chan struct{})}
 	sender.GetStream().AddEventListener(lst)
-	l := &lease{conn: conn, sender: sender, recv: rc, lst: lst}
+	l := &lease{conn: conn, sender: sender, recv: rc, lst: lst, ctx: ctx}
 	w.mu.Lock()
 	w.all = append(w.all, l)
 	w.leases[conn.N] = l
@@ -548,7 +573,8 @@ func runHist(b *binding, casesPath string, tr *vh.Trace, shard, shards int) {
 			return err
 		}
 		w := newWorld(b, c.Mc, c.Mr)
-		tr.Emit(vh.Ev{"ev": "pool", "proto": b.name, "mc": c.Mc, "mr": c.Mr, "case": n})
+		w.retry = n%2 == 1 && b.name != "http1"
+		tr.Emit(vh.Ev{"ev": "pool", "proto": b.name, "mc": c.Mc, "mr": c.Mr, "case": n, "retryctx": w.retry})
 		dead := false
 		for _, o := range c.Ops {
 			e := vh.Ev{"ev": "op"}
